@@ -10,6 +10,7 @@ import (
 	"grog/internal/dag"
 	"grog/internal/hashing"
 	"grog/internal/label"
+	"grog/internal/maps"
 	"grog/internal/model"
 	"grog/internal/output"
 	"grog/internal/output/handlers"
@@ -44,6 +45,9 @@ type Executor struct {
 	loadOutputsMode  config.LoadOutputsMode
 	targetHasher     *hashing.TargetHasher
 	streamLogsToggle *console.StreamLogsToggle
+	// dependencyMutexMap serialises, per dependency, the work of making its outputs present
+	// for its dependants under load_outputs=minimal (see LoadDependencyOutputs)
+	dependencyMutexMap *maps.MutexMap
 }
 
 func NewExecutor(
@@ -66,6 +70,8 @@ func NewExecutor(
 		loadOutputsMode:  loadOutputsMode,
 		targetHasher:     hashing.NewTargetHasher(graph),
 		streamLogsToggle: console.NewStreamLogsToggle(streamLogs),
+
+		dependencyMutexMap: maps.NewMutexMap(),
 	}
 }
 
@@ -460,8 +466,19 @@ func (e *Executor) LoadDependencyOutputs(
 		"loading dependency outputs for target %s.",
 		target.Label,
 	)
-	for _, dep := range e.graph.GetTargetDependencies(target) {
-		localDep := dep
+	// loadDependency makes the outputs of one dependency present: it restores them from the cache
+	// or, when that fails, re-runs the dependency. The first result reports that no further
+	// dependency is to be looked at.
+	// Several dependants of localDep execute concurrently: the whole step is serialised per
+	// dependency, so that its command is never re-run twice at the same time in the same package
+	// directory and no dependant starts while another one is still re-making the outputs.
+	// Lock order: the lock of localDep is held only while working on localDep, which (recursive
+	// load) takes the locks of localDep's own dependencies, i.e. of its ancestors in the graph;
+	// nobody holding an ancestor's lock ever asks for a descendant's, so this cannot deadlock.
+	loadDependency := func(localDep *model.Target) (bool, error) {
+		e.dependencyMutexMap.Lock(localDep.Label.String())
+		defer e.dependencyMutexMap.Unlock(localDep.Label.String())
+
 		// Function to re-run a dependency in case we
 		rerunDependency := func() error {
 			binTools, binToolErr := e.getBinToolPaths(localDep)
@@ -481,14 +498,15 @@ func (e *Executor) LoadDependencyOutputs(
 
 		if localDep.OutputsLoaded {
 			// Executed or restored earlier in this invocation: its outputs are in place and
-			// nothing is needed from the cache (which holds no result when it is disabled)
-			continue
+			// nothing is needed from the cache (which holds no result when it is disabled).
+			// Checked under the lock: another dependant may have restored or re-made them meanwhile
+			return false, nil
 		}
 
 		targetResult, err := e.targetCache.Load(ctx, localDep.ChangeHash)
 		if err != nil {
 			// We cannot even get the target cache: re-run immediately
-			return rerunDependency()
+			return true, rerunDependency()
 		}
 
 		progress := worker.NewProgressTracker(
@@ -510,12 +528,19 @@ func (e *Executor) LoadDependencyOutputs(
 			)
 			// In this case we need to also recursively re-load the dependencies of the dependency
 			if recursiveLoadErr := e.LoadDependencyOutputs(ctx, localDep, update); recursiveLoadErr != nil {
-				return recursiveLoadErr
+				return true, recursiveLoadErr
 			}
 
 			if rerunError := rerunDependency(); rerunError != nil {
-				return rerunError
+				return true, rerunError
 			}
+		}
+		return false, nil
+	}
+
+	for _, dep := range e.graph.GetTargetDependencies(target) {
+		if stop, err := loadDependency(dep); stop || err != nil {
+			return err
 		}
 	}
 
